@@ -24,9 +24,12 @@ class WallClockHang(BaseException):
 
 
 class Result(object):
-    __slots__ = ("ok", "signature", "detail", "labels", "nontrivial")
+    __slots__ = ("ok", "signature", "detail", "labels", "nontrivial", "sub")
 
-    def __init__(self, ok, signature=None, detail=None, labels=(), nontrivial=False):
+    def __init__(self, ok, signature=None, detail=None, labels=(), nontrivial=False, sub=()):
+        # sub: [(key, nontrivial)] - executions performed inside this case (fault
+        # enumerations run many faulted executions per generated base scenario)
+        self.sub = sub
         self.ok = ok
         self.signature = signature
         self.detail = detail
@@ -34,12 +37,12 @@ class Result(object):
         self.nontrivial = nontrivial
 
 
-def held(labels=(), nontrivial=False):
-    return Result(True, None, None, labels, nontrivial)
+def held(labels=(), nontrivial=False, sub=()):
+    return Result(True, None, None, labels, nontrivial, sub)
 
 
-def failed(signature, detail, labels=(), nontrivial=False):
-    return Result(False, signature, detail, labels, nontrivial)
+def failed(signature, detail, labels=(), nontrivial=False, sub=()):
+    return Result(False, signature, detail, labels, nontrivial, sub)
 
 
 class Enumeration(object):
@@ -129,6 +132,12 @@ class Acc(object):
                 self.labels[lab[0]] = self.labels.get(lab[0], 0) + lab[1]
             else:
                 self.labels[lab] = self.labels.get(lab, 0) + 1
+        if res.sub:
+            base = canon(case)
+            for key, nt in res.sub:
+                self.evaluations += 1
+                if nt:
+                    self.nontrivial.add(hashlib.blake2b((base + "|" + str(key)).encode(), digest_size=8).digest())
         if res.nontrivial:
             h = case_hash(case)
             if h not in self.nontrivial:
